@@ -23,6 +23,31 @@ def phase1(df, rng):
     return L
 
 
+def add_subframe_pair(df, rng, i):
+    """two inputs of different rates, each delayed by a negative PHASE shift that is not a whole number of frames, so
+    that both begin inside the same frame: gd_bof of a field on both must pick the one that starts later *in time*
+    (sub-frame offsets compared as fractions of a frame, not as sample counts)"""
+    sa, sb = rng.choice([(4, 16), (2, 8), (3, 5), (16, 4), (5, 2), (2, 3)])
+    nfr = rng.randint(3, 6)
+    ty = rng.choice(["f64", "i32", "u16"])
+    a = df.add_raw("qa%d" % i, ty, sa, nsamp=sa * nfr)
+    b = df.add_raw("qb%d" % i, ty, sb, nsamp=sb * nfr)
+    fr = rng.choice([0, 0, 1])
+    ka = fr * sa + rng.randint(1, sa - 1)
+    kb = fr * sb + rng.randint(1, sb - 1)
+    for (nm, src, k) in (("qpa%d" % i, a, ka), ("qpb%d" % i, b, kb)):
+        df.fields.append(dict(kind="phase", name=nm, text="%s PHASE %s %d" % (nm, src["name"], -k), deff="phase %s %s %d" % (nm, src["name"], -k),
+                              depth=1, inputs=[src["name"]]))
+    one, zero = gen.f64hex(1.0), gen.f64hex(0.0)
+    pa, pb = "qpa%d" % i, "qpb%d" % i
+    df.fields.append(dict(kind="lincom", name="qlab%d" % i, text="qlab%d LINCOM 2 %s 1 0 %s 1 0" % (i, pa, pb),
+                          deff="lincom qlab%d %s %s %s %s %s %s" % (i, pa, one, zero, pb, one, zero), depth=2, inputs=[pa, pb]))
+    df.fields.append(dict(kind="lincom", name="qlba%d" % i, text="qlba%d LINCOM 2 %s 1 0 %s 1 0" % (i, pb, pa),
+                          deff="lincom qlba%d %s %s %s %s %s %s" % (i, pb, one, zero, pa, one, zero), depth=2, inputs=[pb, pa]))
+    df.fields.append(dict(kind="multiply", name="qmab%d" % i, text="qmab%d MULTIPLY %s %s" % (i, pa, pb), deff="multiply qmab%d %s %s" % (i, pa, pb), depth=2, inputs=[pa, pb]))
+    df.fields.append(dict(kind="divide", name="qdba%d" % i, text="qdba%d DIVIDE %s %s" % (i, pb, pa), deff="divide qdba%d %s %s" % (i, pb, pa), depth=2, inputs=[pb, pa]))
+
+
 def parse_val(line):
     # 'eof 12 e=0 rl=0' -> (12, 0)
     t = line.split()
@@ -47,6 +72,8 @@ def run(ctx):
         df = gen.Dirfile(rng, regime='exact', enc=enc, depth=4, max_fields=7,
                          allow=('lincom', 'lincom', 'lincom', 'linterp', 'bit', 'multiply', 'divide', 'recip', 'phase', 'phase',
                                 'phase', 'polynom', 'window'))
+        if i % 5 == 3:
+            add_subframe_pair(df, rng, i)
         dfs.append(df)
     p1 = [phase1(df, rng) for df in dfs]
     res1 = streams.run_chunks(harness, p1, "c16a")
